@@ -280,6 +280,7 @@ def core(ctx, optsets_needed, fields, cross=None, note='', sweep='core', build_m
         'samples': st.get('samples', [])[:3],
         'input_distribution': {'operators': st.get('ops'), 'grammar_kinds': st.get('kinds'), 'by_option_set': {o: by.get(o or 'd') for o in want}},
         'sweep_wall_s': st.get('wall_s'),
+        'theorem_hypotheses_on_sweep_grammars': st.get('theorem_hypotheses'),
     })
     if prev_dist:
         ctx.coverage['input_distribution_' + sweep] = ctx.coverage['input_distribution']
